@@ -6,18 +6,19 @@ import (
 
 // Plan is the swarm configuration of one run. It is drawn from the `plan` stream and stored in the trace.
 type Plan struct {
-	Profile      string     `json:"profile"`
-	CapInc       int        `json:"capInc"`
-	RelCapInc    int        `json:"relCapInc"`
-	Types        []TypeSpec `json:"types"`
-	ResTypes     int        `json:"resTypes"`
-	EntityCap    int        `json:"entityCap"`
-	MaxOpen      int        `json:"maxOpen"`
-	FullEvery    int        `json:"fullEvery"`
-	LockedYield  int        `json:"lockedYield"`           // percent of locked mutator turns handed to the iterator instead
-	RelFilterPct int        `json:"relFilterPct"`          // percent of new filters that are relation filters
-	FillToLimit  bool       `json:"fillToLimit,omitempty"` // register filler types up to MaskTotalBits and one beyond
-	Steps        int        `json:"steps"`
+	Profile        string     `json:"profile"`
+	CapInc         int        `json:"capInc"`
+	RelCapInc      int        `json:"relCapInc"`
+	Types          []TypeSpec `json:"types"`
+	ResTypes       int        `json:"resTypes"`
+	EntityCap      int        `json:"entityCap"`
+	MaxOpen        int        `json:"maxOpen"`
+	FullEvery      int        `json:"fullEvery"`
+	LockedYield    int        `json:"lockedYield"`              // percent of locked mutator turns handed to the iterator instead
+	RelFilterPct   int        `json:"relFilterPct"`             // percent of new filters that are relation filters
+	FillToLimit    bool       `json:"fillToLimit,omitempty"`    // register filler types up to MaskTotalBits and one beyond
+	BatchAsSingles bool       `json:"batchAsSingles,omitempty"` // differential for C08: batch steps are executed as the loop of single-entity calls
+	Steps          int        `json:"steps"`
 
 	Weights map[string]int `json:"weights"`
 
@@ -118,8 +119,14 @@ func GenPlan(profile string, seed uint64, thorough bool) *Plan {
 		case k < 80:
 			t.Kind = "padded"
 			t.Size = 1 + r.Intn(9)
-		case k < 88:
+		case k < 86:
 			t.Kind = "rellater"
+			t.Size = 1 + r.Intn(8)
+		case k < 89:
+			t.Kind = "relnamed"
+			t.Size = 1 + r.Intn(8)
+		case k < 91:
+			t.Kind = "relptr"
 			t.Size = 1 + r.Intn(8)
 		default:
 			t.Kind = "array"
@@ -158,6 +165,16 @@ func GenPlan(profile string, seed uint64, thorough bool) *Plan {
 	}
 	if r.Intn(4) == 0 {
 		p.Types[0].Fillers = 0 // make sure ID 0 is a live type in a good share of runs
+	}
+	if r.Intn(4) == 0 {
+		// the last live type sits on the very last ID of the mask (63 in the tiny build, 255 otherwise)
+		used := 0
+		for _, t := range p.Types {
+			used += t.Fillers + 1
+		}
+		if used <= maxID {
+			p.Types[len(p.Types)-1].Fillers += maxID + 1 - used
+		}
 	}
 
 	switch r.Intn(4) {
